@@ -466,7 +466,14 @@ class C05(core.Prop):
                 fail('raises', '%s: %s (mutation %s, entry %s)' % (type(exc).__name__, str(exc)[:160], case['mut'], entry), key)
                 return F
             if entry != 'memory':
-                return F   # file entry points: only "never an internal error" is demanded here (CSV loses dtypes by design)
+                # file entry points: "never an internal error" (CSV loses dtypes by design), and "the same columns": an actual
+                # frame with a column the reference lacks never compares as correct, whatever the other options say
+                rnames = {c['name'] for c in case['ref']['cols']}
+                extra = [c['name'] for c in case['act']['cols'] if c['name'] not in rnames]
+                if extra and res.get('passed'):
+                    fail('verdict', 'entry %s: the actual frame has the extra column(s) %r and compares as correct (check_order=%r)'
+                         % (entry, extra, case['check_order']), 'verdict:false-pass:extra-column:file-entry')
+                return F
             want = self.spec(case)
             if want is None:
                 return F
